@@ -120,3 +120,69 @@ def deref(fn_node, expr, amap=None):
     while head in amap and head not in seen:
         seen.add(head); d = amap[head] + (('.' + rest) if rest else ''); head, _, rest = d.partition('.')
     return d
+
+
+def assign_pairs(stmt):
+    """(target, value) pairs of an assignment statement; `a, b = x, y` is unpacked into (a, x), (b, y); a chained `a = b = v` gives (a, v), (b, v).
+    Targets whose value cannot be paired (starred, unequal length, non-tuple value) are paired with None."""
+    import ast as _ast
+    out = []
+    if isinstance(stmt, _ast.Assign):
+        for t in stmt.targets:
+            if isinstance(t, (_ast.Tuple, _ast.List)):
+                v = stmt.value
+                if isinstance(v, (_ast.Tuple, _ast.List)) and len(v.elts) == len(t.elts) and not any(isinstance(e, _ast.Starred) for e in list(t.elts) + list(v.elts)):
+                    out.extend(zip(t.elts, v.elts))
+                else:
+                    out.extend((e, None) for e in t.elts)
+            else:
+                out.append((t, stmt.value))
+    elif isinstance(stmt, _ast.AnnAssign) and stmt.value is not None:
+        out.append((stmt.target, stmt.value))
+    return out
+
+
+def const_sets(mod):
+    """module-level names bound to constant sets of strings (`del_statuses = {...}`, `x = {'created'} | del_statuses`) -> {name: frozenset}"""
+    import ast as _ast
+    out = {}
+    def ev(e):
+        if isinstance(e, (_ast.Set, _ast.Tuple, _ast.List)) and all(isinstance(x, _ast.Constant) for x in e.elts): return frozenset(x.value for x in e.elts)
+        if isinstance(e, _ast.Name) and e.id in out: return out[e.id]
+        if isinstance(e, _ast.BinOp) and isinstance(e.op, (_ast.BitOr, _ast.Sub, _ast.BitAnd)):
+            l, r = ev(e.left), ev(e.right)
+            if l is None or r is None: return None
+            return l | r if isinstance(e.op, _ast.BitOr) else (l - r if isinstance(e.op, _ast.Sub) else l & r)
+        if isinstance(e, _ast.Call) and isinstance(e.func, _ast.Name) and e.func.id in ('frozenset', 'set', 'tuple') and len(e.args) == 1: return ev(e.args[0])
+        return None
+    for st in mod.tree.body:
+        if isinstance(st, _ast.Assign) and len(st.targets) == 1 and isinstance(st.targets[0], _ast.Name):
+            v = ev(st.value)
+            if v is not None: out[st.targets[0].id] = v
+    return out
+
+
+def value_atom(fn_node, subject, value, sets=None, other=None):
+    """atom for typestate.eval_test: the expression whose alias-resolved dotted text is `subject` (e.g. 'obj._status_') has the concrete
+    string `value`; decides `S == 'c'`, `S != 'c'`, `S in (...)`, `S not in NAME` (NAME from `sets`), `S is None`; everything else -> other(text, node)"""
+    import ast as _ast
+    amap = alias_map(fn_node)
+    sets = sets or {}
+    def is_subj(e): return deref(fn_node, e, amap) == subject
+    def members(e):
+        if isinstance(e, (_ast.Set, _ast.Tuple, _ast.List)) and all(isinstance(x, _ast.Constant) for x in e.elts): return frozenset(x.value for x in e.elts)
+        if isinstance(e, _ast.Name) and e.id in sets: return sets[e.id]
+        return None
+    def atom(text, node):
+        if isinstance(node, _ast.Compare) and len(node.ops) == 1:
+            l, op, r = node.left, node.ops[0], node.comparators[0]
+            if isinstance(op, (_ast.Eq, _ast.NotEq)):
+                if is_subj(r) and isinstance(l, _ast.Constant): l, r = r, l
+                if is_subj(l) and isinstance(r, _ast.Constant): return (value == r.value) == isinstance(op, _ast.Eq)
+            if isinstance(op, (_ast.In, _ast.NotIn)) and is_subj(l):
+                m = members(r)
+                if m is not None: return (value in m) == isinstance(op, _ast.In)
+            if isinstance(op, (_ast.Is, _ast.IsNot)) and is_subj(l) and isinstance(r, _ast.Constant) and r.value is None:
+                return (value is None) == isinstance(op, _ast.Is)
+        return other(text, node) if other else None
+    return atom
